@@ -127,6 +127,9 @@ def run_check(pid: str, tier: str) -> int:
     evdir = EVIDENCE if os.path.realpath(evidence["repo"]) == "/repo" else Path("/tmp/verif-evidence-scratch")
     evdir.mkdir(exist_ok=True)
     (evdir / f"{pid}.json").write_text(json.dumps(evidence, indent=1, default=str))
+    # a copy per tier, so that the last thorough run stays on record when the quick tier runs again
+    (evdir / "by_tier").mkdir(exist_ok=True)
+    (evdir / "by_tier" / f"{pid}.{tier}.json").write_text(json.dumps(evidence, indent=1, default=str))
 
     keys = ("states", "transitions", "traces_validated_against_impl", "evaluations", "distinct_nontrivial")
     summ = " ".join(f"{k}={cov[k]}" for k in keys if k in cov)
